@@ -7,7 +7,7 @@ use internal::IResult;
 use nom::bytes::complete::{take_while1, take_while_m_n};
 use nom::combinator::map;
 use nom::error::context;
-use nom::multi::many1;
+use nom::multi::separated_list1;
 use std::fmt;
 
 /// Ice options attribute (`a=ice-options`)
@@ -26,9 +26,13 @@ impl IceOptions {
         context(
             "parsing ice-options",
             map(
-                many1(map(take_while1(ice_char), |option| {
-                    BytesStr::from_parse(src, option)
-                })),
+                // ice-option-tag *(SP ice-option-tag)
+                separated_list1(
+                    take_while1(|c| c == ' '),
+                    map(take_while1(ice_char), |option| {
+                        BytesStr::from_parse(src, option)
+                    }),
+                ),
                 |options| Self { options },
             ),
         )(i)
@@ -43,8 +47,14 @@ impl fmt::Display for IceOptions {
 
         write!(f, "a=ice-options:")?;
 
-        for option in &self.options {
-            write!(f, " {}", option)?;
+        let mut options = self.options.iter().peekable();
+
+        while let Some(option) = options.next() {
+            write!(f, "{}", option)?;
+
+            if options.peek().is_some() {
+                write!(f, " ")?;
+            }
         }
 
         f.write_str("\r\n")
